@@ -39,6 +39,13 @@ template<typename S> static void run(std::mt19937 & rng, double tol, const char 
         Vec wantp = Ac * xf + Bc;
         if (!((xp - wantp).template cast<double>().norm() <= tol * 100 * (1 + wantp.template cast<double>().norm()))) FAIL("%s, %d unknowns, %d rows, %s: preconditioned result differs from Ac x + Bc by %.3g", sname, n, m, how, (xp - wantp).template cast<double>().norm());
       }
+      { // a linear preconditioner configured after an affine one: the old offset must be gone
+        Mat A1 = Mat::Identity(n, n) * (S)2, A2 = Mat::Identity(n, n) * (S)0.5; Vec b1 = Vec::Constant(n, (S)3);
+        LeastSquares<S> ls(n); if (reuse) dirty(ls); fill(ls); ls.setPreconditionner(A1, b1); ls.estimateUsingCholeskyDecomposition(); ls.setPreconditionner(A2);
+        Vec x = ls.estimateUsingCholeskyDecomposition();
+        LeastSquares<S> fresh(n); fill(fresh); Vec wantx = A2 * fresh.estimateUsingCholeskyDecomposition();
+        if (!((x - wantx).template cast<double>().norm() <= tol * 100 * (1 + wantx.template cast<double>().norm()))) FAIL("%s, %d unknowns, %d rows, %s: setPreconditionner(A2) after setPreconditionner(A1, b1): result differs from A2 x by %.3g (stale offset?)", sname, n, m, how, (x - wantx).template cast<double>().norm());
+      }
       { LeastSquares<S> ls(n); if (reuse) dirty(ls); fill(ls); for (int i = 0; i < m; ++i) ls.getW()(i) = W(i);
         Vec x = ls.weightedEstimate();
         Mat Jw = W.asDiagonal() * J; Vec Yw = W.asDiagonal() * Y;
